@@ -1,6 +1,7 @@
 """C06: rule:NAME is a transparent alias for NAME's current definition."""
 import re
 
+from common import corr_kind
 from world import base_case, run_cases, describe, out_of_model, agree, run_impl_many
 from c01 import rand_oexp
 from c02 import sentence_tokens
@@ -54,7 +55,8 @@ def run(run, binfo):
     cases, meta = [], []
     for s_i in range(nsets):
         names, rules = gen_ruleset(rng, rng.randint(2, 6))
-        default = rng.choice([('none',), ('name', 'default'), ('name', 'nodefault'), ('check', 'role:r1')])
+        default = rng.choice([('none',), ('name', 'default'), ('name', 'nodefault'), ('check', 'role:r1'),
+                              ('check', '@'), ('check', 'not role:r0'), ('check', 'role:r0 or role:r2')])
         custom = {'c4a': rng.random() < 0.5, 'c3a': rng.random() < 0.5, 'c4b': rng.random() < 0.5}
         # metamorphic partner: inline one reference in one rule
         refs = [(n, m) for n in names for m in names if ('rule:' + m) in rules[n].split() or rules[n] == 'rule:' + m]
@@ -143,7 +145,7 @@ def run(run, binfo):
     if bad_corr and not run.violations:
         c, m, i, what = bad_corr[0]
         run.violation('correspondence:S3', 'model and implementation disagree on %s' % what,
-                      {'kind': 'broken-obligation', 'obligation': 'correspondence suite S3 (evaluation with references, %s)' % what,
+                      {'kind': corr_kind(m), 'oracle': 'the Coq model, for which the property is proved', 'obligation': 'correspondence suite S3 (evaluation with references, %s)' % what,
                        'input': describe(c), 'model': m, 'observed': i, 'count': len(bad_corr)})
     run.rule = ('%d acyclic rule sets over 2-6 names (references only downwards; undefined references; alias chains; '
                 'diamonds), bodies = random expressions over role checks, references and recording custom checks with 3- and '
